@@ -58,6 +58,7 @@ class Ctx:
         self.grad_leaves = []  # SymTensors that are autograd leaves requiring grad
         self.sinks = 0
         self.env = {}  # free-form per-run storage for stubs
+        self.assume_failed: List[str] = []  # concrete mode: assumptions the replayed inputs do not satisfy
 
     # -- naming -------------------------------------------------------------------------
     def fresh(self, base="t") -> T:
@@ -66,9 +67,13 @@ class Ctx:
 
     # -- assumptions / goals --------------------------------------------------------------
     def assume(self, cond):
-        cond = _as_term(cond)
         if self.mode == "concrete":
+            # a replayed input must lie in the assumed domain: a run outside it reproduces nothing
+            if isinstance(cond, bool) or hasattr(cond, "holds"):
+                if not bool(cond):
+                    self.assume_failed.append(str(getattr(cond, "detail", "")) or "assumption")
             return
+        cond = _as_term(cond)
         self.assumptions.append(cond)
 
     def hyps(self) -> List[T]:
